@@ -13,7 +13,9 @@ func init() { generators["C03"] = genC03 }
 
 var bmVocab = []string{"alpha", "beta", "gamma", "delta", "Fast", "index", " ", ",", "ﬁsh", "１２", "İ", "naïve", "x-y", "don't", "3.14", "ÀB", "ǅ", "㎏", "\t", "\n", "ＡＢ", "Ω", "ß",
 	// compatibility characters whose NFKC decomposition contains capitals (normalise, THEN lower-case), next to their plain spellings
-	"℡", "tel", "㎑", "khz", "№", "no", "㏂", "a.m."}
+	"℡", "tel", "㎑", "khz", "№", "no", "㏂", "a.m.",
+	// text is bytes: a word in another encoding (not valid UTF-8) is still a document's text
+	"caf\xe9", "\xff\xfe"}
 
 func bmText(r *rand.Rand) string {
 	n := r.Intn(8)
